@@ -224,6 +224,11 @@ def replay(recs):
             mk = lambda: g.Cylinder(g.Point(*C), g.Point(*dd), rad)  # noqa: E731
             chk("Cylinder", st, case, r["M"], mk, lambda x: mcls(x, r["M"]))
             chk("Cylinder/scaled-representatives", st, case, r["M"], lambda: g.Cylinder(P([2 * x for x in C] + [2]), P([-3 * x for x in dd] + [-3]), rad), lambda x: mcls(x, r["M"]))
+            # the axis given as a point at infinity (integer and float coordinates), and the cone with its vertex at infinity
+            chk("Cylinder/direction-at-infinity/integer", st, case, r["M"], lambda: g.Cylinder(g.Point(*C), P(list(dd) + [0]), rad), lambda x: mcls(x, r["M"]))
+            chk("Cylinder/direction-at-infinity/float", st, case, r["M"], lambda: g.Cylinder(g.Point(*C), g.Point(np.array(list(dd) + [0], dtype=float) * 0.5), rad), lambda x: mcls(x, r["M"]))
+            chk("Cone/vertex-at-infinity/integer", st, case, r["M"], lambda: g.Cone(P(list(dd) + [0]), g.Point(*C), rad), lambda x: mcls(x, r["M"]))
+            chk("Cone/vertex-at-infinity/negative-representative", st, case, r["M"], lambda: g.Cone(P([-2 * x for x in dd] + [0]), P([3 * x for x in C] + [3]), rad), lambda x: mcls(x, r["M"]))
             chk("Cylinder.contains(rim point)", st, {**case, "p": r["rim"]}, True, lambda: mk().contains(P(r["rim"])), lambda x: bool(x))
             chk("Cylinder.contains(shifted rim point)", st, {**case, "p": r["rim2"]}, True, lambda: mk().contains(P(r["rim2"])), lambda x: bool(x))
             chk("Cylinder.contains(centre)", st, case, False, lambda: mk().contains(g.Point(*C)), lambda x: not bool(x))
